@@ -164,7 +164,8 @@ def run(rep, tier, rng):
             if hs[j] != hs[0]:
                 rep.violation("program hash depends on %s" % what, {"kind": "search", "family": "asmdump", "case": flat[6 * k + j], "plain_case": flat[6 * k], "impl": hs[j][:200], "plain": hs[0][:200]})
                 found = True
-        if v[4] != v[0] and hs[5] == hs[0]:
+        # (a body under repeat.0 contributes no operation: an immediate changed there cannot show in the hash)
+        if v[4] != v[0] and hs[5] == hs[0] and "repeat.0" not in v[0]:
             rep.violation("program hash unchanged although an immediate changed", {"kind": "search", "family": "asmdump", "case": flat[6 * k + 5], "plain_case": flat[6 * k], "impl": hs[5][:200], "plain": hs[0][:200], "expect_different": True})
             found = True
     base.report_proof_failure(rep, "C08", pr, found)
